@@ -128,6 +128,56 @@ Fixpoint element (a : obj T) (i : inp) {struct a} : eres :=
   | _ => RTypeErr
   end.
 
+
+(* ------------------------------------------------------------ the options: order=, cast= *)
+(* NumpyTensorSpace.element / DiscretizedSpace.element(inp, order='C'|'F'): the membership fast
+   paths are taken only for order=None; np.array(inp, copy=False, order=...) shares memory with
+   a (C-contiguous) input of the right dtype unless a Fortran copy is needed, i.e. unless more
+   than one axis is longer than 1.  ProductSpace.element(inp, cast=False): TypeError instead of
+   converting the parts. *)
+Inductive ord := OrdC | OrdF.
+
+Definition eff_1d (s : list Z) : bool :=
+  Nat.leb (length (filter (fun n => negb (n =? 1)%Z) s)) 1.
+
+Definition tsp_convert_ord (o : option ord) (t : tsp T) (i : inp) : eres :=
+  match tsp_convert t i with
+  | RTens d a => RTens d (match o with Some OrdF => if eff_1d (ts_shape t) then a else None | _ => a end)
+  | r => r
+  end.
+
+Definition no_order (o : option ord) : bool := match o with None => true | Some _ => false end.
+
+Definition all_members (l : list (obj T)) (its : list inp) : bool :=
+  (fix go (l : list (obj T)) (its : list inp) : bool :=
+     match l, its with
+     | s :: l', it :: its' => is_member s it && go l' its'
+     | _, _ => true
+     end) l its.
+
+Definition element_opt (o : option ord) (cast : bool) (a : obj T) (i : inp) : eres :=
+  match a with
+  | OTensor t => if is_member a i && no_order o then RSame else tsp_convert_ord o t i
+  | ODiscr p t =>
+      if is_member a i && no_order o then RSame
+      else match i with
+           | IElem (ETens sp eid data) =>
+               if tri_eqb (eqt v sp (OTensor t)) TT && no_order o then RTens data (Some eid)
+               else tsp_convert_ord o t i
+           | _ => tsp_convert_ord o t i
+           end
+  | OProd l w f =>
+      if is_member a i then RSame
+      else match items_of i with
+           | None => RTypeErr
+           | Some its =>
+               if negb (Nat.eqb (length its) (length l)) then RValueErr
+               else if cast || all_members l its then element a i
+               else RTypeErr
+           end
+  | _ => RTypeErr
+  end.
+
 (* the values held by the outcome (RSame: those of the input) *)
 Fixpoint rvalues (r : eres) (i : inp) : list T :=
   match r with
